@@ -15,7 +15,36 @@ def run(rep, drv):
 	simstream.run_stream(rep, drv, 'sim-trace', 2500 if th else 250, FIELDS, oracle, THEOREM, th, seed_off=2)
 	# customers with node index 0 and frequent disruptions (index 0 is legal and falsy; disruption bookkeeping is per customer index)
 	simstream.run_stream(rep, drv, 'sim-trace', 600 if th else 80, FIELDS, oracle, THEOREM, th, force={'label0': True, 'pdis': .8}, seed_off=102)
+	rerun_stream(rep, drv, 300 if th else 40, th)
 	mplib.run_mp_stream(rep, drv, 'C02', THEOREM + ' + Props/MP (rm_conservation, rm_never_negative)', 400 if th else 50, th, seed_off=12)
+
+def rerun_stream(rep, drv, n, th):
+	"""Object life cycle: the same network objects simulated a second time (as run_multiple_trials does) - the second trajectory must
+	satisfy the property and equal the model's, like the first."""
+	import random
+	rng = random.Random(rep.seed * 7 + 202)
+	for k in range(n):
+		spec = simlib.gen_spec(rng, th)
+		r = simstream.one_case(rep, drv, 'sim-trace', spec, FIELDS, oracle, THEOREM)
+		if r is None:
+			continue
+		py, mo, init = r
+		py2 = simlib.run_py(spec, net_objs=(py['net'], py['objs']))
+		rep.count('second-simulation-of-the-same-objects')
+		if 'error' in py2:
+			rep.diff('sim-trace', 'second simulation of the same network objects raised %s: %s' % (py2['error'], py2.get('msg')), spec, oracle=True, theorem=THEOREM)
+			continue
+		d = simlib.compare_traces(spec, py2, mo, FIELDS)
+		fails = oracle(spec, py2['trace'], init)
+		if d or fails:
+			what = 'second simulation of the same network objects'
+			if d:
+				what += ': model/implementation differ: ' + simlib.fmt_diffs(d)
+			if fails:
+				what += ' | property predicate fails on the real code: ' + '; '.join(fails[:3])
+			rep.diff('sim-trace', what, dict(spec, second_run=True), py={'first_diffs': [list(map(str, x)) for x in d[:8]], 'predicate_failures': fails[:8]},
+					 oracle=bool(fails), theorem=THEOREM if not d else None)
+
 
 def replay_mp(rep, drv, doc):
 	mplib.mp_case(rep, drv, doc['case'], 'C02', THEOREM)
@@ -23,4 +52,9 @@ def replay_mp(rep, drv, doc):
 def replay(rep, drv, doc):
 	if doc['stream'] == 'mp-kernels':
 		return replay_mp(rep, drv, doc)
-	simstream.one_case(rep, drv, doc['stream'], doc['case'], FIELDS, oracle, THEOREM)
+	r = simstream.one_case(rep, drv, doc['stream'], doc['case'], FIELDS, oracle, THEOREM)
+	if doc['case'].get('second_run') and r is not None:
+		py2 = simlib.run_py(doc['case'], net_objs=(r[0]['net'], r[0]['objs']))
+		fails = oracle(doc['case'], py2['trace'], r[2]) if 'error' not in py2 else ['second simulation raised ' + py2['error']]
+		if fails or simlib.compare_traces(doc['case'], py2, r[1], FIELDS):
+			rep.diff('sim-trace', 'second simulation of the same network objects: ' + '; '.join(fails[:3]), doc['case'], oracle=bool(fails), theorem=THEOREM)
